@@ -384,6 +384,15 @@ def rule_semantics(P) -> RuleResult:
         'integer': [('42', 42), ('007', 7), ('0', 0)],
         'identifier': [('Account', 'account'), ('payee', 'payee'), ('COST_NUMBER', 'cost_number')],
     }
+    # a rule written with tokens hands its action the token as spelled in the grammar; a rule written with a pattern hands it the text as
+    # typed - under @@ignorecase any letter case: the action then has to stand for the same value in every case
+    Gm = _G()
+
+    def has_pattern(e):
+        return isinstance(e, Gm.Pattern) or any(has_pattern(c) for c in _children(e))
+    for name in ('boolean', 'null'):
+        if name in rules and has_pattern(rules[name].exp):
+            vectors[name] = vectors[name] + [(t.lower(), v) for t, v in vectors[name]] + [(t.capitalize(), v) for t, v in vectors[name]]
     for name, vecs in vectors.items():
         fi = sem.methods.get(name)
         if fi is None:
@@ -420,6 +429,17 @@ def rule_semantics(P) -> RuleResult:
                 res.fail(fi.fq, f'semantics:value:{name}', f'the {name} literal stands for {want_s}; the action gives `{shown[:100]}`', loc(fi))
             else:
                 res.ok({'action': name, 'value': want_s})
+    # an action that raises one of TatSu's parse-failure exceptions turns a malformed literal into a *rule failure*: the PEG parser then
+    # backtracks and reads the same text as something else (2014-02-30 as the subtraction 2014 - 02 - 30) instead of rejecting it
+    for name, fi in sem.methods.items():
+        for n_ in ast.walk(fi.node):
+            if isinstance(n_, ast.Raise) and n_.exc is not None:
+                e_ = n_.exc.func if isinstance(n_.exc, ast.Call) else n_.exc
+                d_ = fi.module.dotted(e_) or ast.unparse(e_)
+                if d_.startswith('tatsu.') or d_.split('.')[-1] in ('FailedSemantics', 'FailedParse', 'FailedToken', 'FailedPattern', 'FailedRef'):
+                    res.fail(fi.fq, f'semantics:backtrack:{name}', f'the action `{name}` raises {d_.split(".")[-1]}: for TatSu that is a failed rule, so '
+                             f'the text is parsed again by the next alternative and accepted with another meaning (a date-shaped literal '
+                             f'that is not a calendar date becomes an arithmetic expression)', loc(fi))
     # the structural actions: ORDER BY direction, `*`, lists, and the default action that builds the node of a typed rule
     from ..symex import SList as _SL, gname as _gn
     SEM = _S('SEMANTICS')
